@@ -877,6 +877,185 @@ def c19_real_requests(wk, loglevel, big, logcfg=None):
         s.cleanup()
 
 
+def c19_reopen(ctx):
+    """log rotation against a record being written (specs/LogReopen.tla), on the real Logger.access() / reopen_files()
+    with a FileHandler.  thread mode (gthread: records are emitted by pool threads, signals handled by the main thread):
+    at the k-th source-line boundary of the run the file is renamed away and reopen_files() called from another thread --
+    every k.  signal mode (master, sync and async workers): the main thread writes records while another process sends
+    SIGUSR1 at random instants (drivers/logreopen_signal.py); the handler runs wherever this interpreter runs signal
+    handlers.  Judged by specs/LogReopenTrace.tla."""
+    import datetime
+    import io
+    import linecache
+    import logging
+    import sys
+    import threading
+    import subprocess
+    for mode, dev, want in (("signal", [], True), ("thread", [], True), ("signal", ["SignalAtAnyLine"], False),
+                            ("thread", ["ReopenWithoutLock"], False)):
+        cfgp = os.path.join(OUT, "cfg", "LogReopen_%s_%s.cfg" % (mode, "_".join(dev) or "design"))
+        tlc.write_cfg(cfgp, spec="Spec", constants={"NRec": 2, "NRot": 2, "Mode": mode, "Dev": set(dev)},
+                      invariants=["TypeOK", "NoRecordLost", "ExactlyOneRecordEach", "FollowsThePath"])
+        r = tlc.run("LogReopen", cfgp, name="LogReopen_%s_%s" % (mode, "_".join(dev) or "design"), workers=2, timeout=300)
+        if want:
+            if not r.ok:
+                raise tlc.TLCError("LogReopen design (%s) violates %s" % (mode, r.violated))
+            ctx.add_model(r, "LogReopen mode=%s" % mode)
+        else:
+            ctx.coverage.setdefault("deviation_runs", []).append({"dev": dev[0], "mode": mode, "expected": "NoRecordLost",
+                                                                   "reproduced": bool({"NoRecordLost", "ExactlyOneRecordEach", "FollowsThePath"} & set(r.violated))})
+    from gunicorn.config import Config
+    from gunicorn.glogging import Logger
+    d = os.path.join(drv.SCRATCH, "logreopen_%d" % os.getpid())
+    os.makedirs(d, exist_ok=True)
+    path = os.path.join(d, "access.log")
+
+    class Resp:
+        status, sent, headers, response_length = "200 OK", 5, [("Content-Length", "5")], 5
+
+    class Req:
+        headers = [("HOST", "h")]
+    env = {"REQUEST_METHOD": "GET", "RAW_URI": "/x", "SERVER_PROTOCOL": "HTTP/1.1", "PATH_INFO": "/x", "QUERY_STRING": "",
+           "REMOTE_ADDR": "127.0.0.1"}
+
+    def count(p):
+        try:
+            with open(p) as f:
+                return sum(1 for ln in f if ln.startswith("200|5|/x"))
+        except OSError:
+            return 0
+
+    def one(mode, k):
+        """-> (event, where) or None when the run has fewer than k line boundaries"""
+        for p_ in (path, path + ".1"):
+            if os.path.exists(p_):
+                os.unlink(p_)
+        cfg = Config()
+        cfg.set("accesslog", path)
+        cfg.set("access_log_format", "%(s)s|%(B)s|%(U)s")
+        log = Logger(cfg)
+        # (handlers other checks of this process left on the logger are set aside for the run)
+        foreign = [h for h in log.access_log.handlers if not isinstance(h, logging.FileHandler)]
+        for h in foreign:
+            log.access_log.removeHandler(h)
+        st = {"n": 0, "stage": "before", "at": None, "where": None, "thread": None}
+
+        def rotate():
+            os.rename(path, path + ".1")
+            log.reopen_files()
+
+        def tr(frame, event, arg):
+            if event != "line" or st["at"] is not None and st["n"] >= k:
+                return tr
+            co = frame.f_code
+            text = linecache.getline(co.co_filename, frame.f_lineno).strip()
+            lib = co.co_filename.endswith(os.path.join("logging", "__init__.py"))
+            # position of the emitting path BEFORE this line runs
+            if lib and co.co_name == "handle" and text == "self.emit(record)":
+                st["stage"] = "locked"
+            elif lib and co.co_name == "emit" and text == "stream = self.stream":
+                st["stage"] = "checked"
+            elif lib and co.co_name == "emit" and text.startswith("stream.write("):
+                st["stage"] = "fetched"
+            elif lib and co.co_name == "emit" and text == "self.flush()":
+                st["stage"] = "written"
+            elif lib and co.co_name == "handle" and text == "self.release()" and st["stage"] == "written":
+                st["stage"] = "flushed"
+            elif st["stage"] == "flushed":
+                st["stage"] = "after"
+            st["n"] += 1
+            if st["n"] == k:
+                st["at"] = st["stage"]
+                st["where"] = "%s:%s: %s" % (os.path.basename(co.co_filename), co.co_name, text[:50])
+                sys.settrace(None)
+                if mode == "signal":
+                    rotate()
+                else:
+                    t = threading.Thread(target=rotate)
+                    t.start()
+                    t.join(0.05)
+                    st["thread"] = t
+                return None
+            return tr
+        err = io.StringIO()
+        saved = sys.stderr
+        sys.stderr = err
+        sys.settrace(tr)
+        try:
+            log.access(Resp(), Req(), env, datetime.timedelta(seconds=1))
+        finally:
+            sys.settrace(None)
+            sys.stderr = saved
+        if st["thread"] is not None:
+            st["thread"].join(5)
+        for lg in (log.access_log, log.error_log):
+            for h in list(lg.handlers):
+                try:
+                    h.close()
+                except Exception:   # noqa
+                    pass
+        for h in foreign:
+            log.access_log.addHandler(h)
+        if st["at"] is None:
+            return None
+        return ({"mode": mode, "pc": st["at"], "nold": count(path + ".1"), "nnew": count(path), "n": 1, "total": 0},
+                {"k": k, "where": st["where"], "stderr": err.getvalue()[-200:]})
+    traces, metas = [], []
+    # signal mode: real signals from another process
+    nrec = 30000 if ctx.quick else 150000
+    procs = []
+    for i in range(2 if ctx.quick else 6):
+        dd = os.path.join(d, "sig%d" % i)
+        procs.append((dd, subprocess.Popen([sys.executable, "-B", os.path.join(os.path.dirname(drv.__file__), "logreopen_signal.py"),
+                                            dd, str(nrec), str(ctx.seed * 10 + i)], stdout=subprocess.PIPE, stderr=subprocess.PIPE, text=True,
+                                           env=dict(os.environ, VERIF_REPO=os.environ.get("VERIF_REPO", "/repo")))))
+    for mode in ("thread",):
+        k = 1
+        while k < 5000:
+            r = one(mode, k)
+            if r is None:
+                break
+            traces.append({"ev": [r[0]]})
+            metas.append(dict(r[1], mode=mode, pc=r[0]["pc"]))
+            k += 1
+    if len(traces) < 200 or not any(m["pc"] == "fetched" for m in metas):
+        raise RuntimeError("log-reopen exploration did not reach the emitting path (%d runs)" % len(traces))
+    sigruns = []
+    for dd, pr in procs:
+        out, errtxt = pr.communicate(timeout=900)
+        try:
+            o = json.loads(out.strip().splitlines()[-1])
+        except (ValueError, IndexError):
+            # the driver died: a signal handler's exception escaped into the main loop, or the harness is broken
+            o = {"n": nrec, "total": -1, "rotations": 0, "reentrant": 0, "stderr": (errtxt or "")[-300:]}
+        sigruns.append(o)
+        traces.append({"ev": [{"mode": "signal", "pc": "real", "nold": 0, "nnew": 0, "n": o["n"], "total": o["total"]}]})
+        metas.append({"mode": "signal", "pc": "real", "k": 0, "where": "real SIGUSR1 from another process (%d rotations, %d inside a busy flush)"
+                      % (o["rotations"], o.get("reentrant", 0)), "stderr": o.get("stderr", "")})
+    if sum(o["rotations"] for o in sigruns) < 100:
+        raise RuntimeError("log-reopen signal runs rotated only %s times" % [o["rotations"] for o in sigruns])
+    ctx.coverage["log_reopen_real_signals"] = {"records": sum(o["n"] for o in sigruns), "rotations": sum(o["rotations"] for o in sigruns),
+                                              "handler_inside_busy_flush": sum(o.get("reentrant", 0) for o in sigruns)}
+    import shutil
+    shutil.rmtree(d, ignore_errors=True)
+    verdicts, stats = tlc.validate_batch("LogReopenTrace", "LogReopenTrace.cfg", traces, name="LogReopenTrace_C19", chunk=3000)
+    ctx.add_traces(len(traces), stats)
+    ctx.coverage["log_reopen_line_boundaries_thread_mode"] = sum(1 for x in metas if x["mode"] == "thread")
+    for t, m, (v, step) in zip(traces, metas, verdicts):
+        if v == "ok":
+            continue
+        if v.startswith("drift:"):
+            ctx.note_drift("log reopen (%s) at %s [%s]: %s, files old=%d new=%d" % (m["mode"], m["pc"], m["where"], v,
+                                                                                     t["ev"][0]["nold"], t["ev"][0]["nnew"]))
+            continue
+        ctx.violation("C19/%s/log-reopen,mode=%s,at=%s" % (v, m["mode"], m["pc"]),
+                      "%s: Logger.reopen_files() (%s) at line boundary %d, `%s`: %d record(s) in the renamed file, %d in the "
+                      "new one; written %d, found %d; stderr: %s"
+                      % (v, "in the emitting thread, as the SIGUSR1 handler" if m["mode"] == "signal" else "from another thread",
+                         m["k"], m["where"], t["ev"][0]["nold"], t["ev"][0]["nnew"], t["ev"][0]["n"], t["ev"][0]["total"], m["stderr"][-120:]),
+                      {"trace": t, "meta": m})
+
+
 def c19(ctx):
     import base64
     rng = ctx.rng
@@ -979,6 +1158,7 @@ def c19(ctx):
         for ev, info in res:
             traces.append({"ev": [ev]})
             metas.append(info)
+    c19_reopen(ctx)
     verdicts, stats = tlc.validate_batch("AccessTrace", "AccessTrace.cfg", traces, name="AccessTrace_C19", chunk=6000)
     ctx.add_traces(len(traces), stats)
     for t, m, (v, step) in zip(traces, metas, verdicts):
